@@ -400,7 +400,15 @@ class Compiler:
 
         # Ensure arrival of all log messages
         time.sleep(0.05 if self.p is not None else 0.5)
-        self._recv_log_error_until_empty()
+        try:
+            self._recv_log_error_until_empty()
+        except Exception as e:
+            # An error of another task of this client arrived. As in
+            # _send and _send_recv, the connection is closed, since the
+            # runtime never delivers a result for the failed task.
+            self.conn = None
+            self.close()
+            raise RuntimeError('Server connection unexpectedly closed.') from e
 
         return result
 
